@@ -17,12 +17,23 @@ use std::task::{Context, Poll};
 
 const S: usize = 8;
 
-pub struct ASrc { pub data: [u8; S], pub end: usize, pub pos: usize, pub completed: u8, pub saw_err: bool, pub saw_eof: bool, pub saw_pending: bool }
+/// The "value" read from a frame is the payload itself (length and bytes): decoding CBOR out of
+/// the payload is C04's subject; what C15 is about is that the payload arrives whole.
+#[derive(Debug, Clone, Copy, PartialEq, Eq)]
+pub struct Raw { len: usize, b0: u8, b1: u8 }
+impl<'b, C> minicbor::Decode<'b, C> for Raw {
+    fn decode(d: &mut minicbor::Decoder<'b>, _: &mut C) -> Result<Self, minicbor::decode::Error> {
+        let i = d.input();
+        Ok(Raw { len: i.len(), b0: if i.len() > 0 { i[0] } else { 0 }, b1: if i.len() > 1 { i[1] } else { 0 } })
+    }
+}
+
+pub struct ASrc { pub data: [u8; S], pub end: usize, pub pos: usize, pub max_reads: u8, pub completed: u8, pub saw_err: bool, pub saw_eof: bool, pub saw_pending: bool }
 
 impl AsyncRead for ASrc {
     fn poll_read(mut self: Pin<&mut Self>, _cx: &mut Context<'_>, buf: &mut [u8]) -> Poll<io::Result<usize>> {
         let c: u8 = kani::any();
-        if self.completed >= 2 || c == 0 { self.saw_pending = true; return Poll::Pending }
+        if self.completed >= self.max_reads || c == 0 { self.saw_pending = true; return Poll::Pending }
         if c == 1 { self.saw_err = true; return Poll::Ready(Err(io::ErrorKind::ConnectionReset.into())) }
         let rem = self.end - self.pos;
         if rem == 0 { self.saw_eof = true; return Poll::Ready(Ok(0)) }
@@ -55,9 +66,9 @@ fn inv(read_val: bool, lenb: &[u8; 4], o: usize, buffer: &[u8], data: &[u8; S], 
 
 /// One poll + drop from the Inv pre-state (`READ_VAL`, `O`): the state family and offset are fixed per
 /// harness (nine harnesses cover every Inv state), everything else is symbolic.
-fn step<const READ_VAL: bool, const O: usize>() {
-    let x: u8 = kani::any();
-    let data: [u8; S] = [0, 0, 0, 2, 0x18, x, 0, 0];
+fn step<const READ_VAL: bool, const O: usize, const READS: u8>() {
+    let p: [u8; 2] = kani::any();
+    let data: [u8; S] = [0, 0, 0, 2, p[0], p[1], 0, 0];
     // arbitrary pre-state satisfying Inv
     let read_val: bool = READ_VAL;
     let o: usize = O;
@@ -79,12 +90,12 @@ fn step<const READ_VAL: bool, const O: usize>() {
     }
     let end: usize = kani::any();
     kani::assume(end >= srcpos && end <= 6);
-    let src = ASrc { data, end, pos: srcpos, completed: 0, saw_err: false, saw_eof: false, saw_pending: false };
+    let src = ASrc { data, end, pos: srcpos, max_reads: READS, completed: 0, saw_err: false, saw_eof: false, saw_pending: false };
     let mut r = AsyncReader::__verif_from_parts(src, buffer, 4, read_val, lenb, o);
     let waker = noop_waker();
     let mut cx = Context::from_waker(&waker);
-    let res: Poll<Result<Option<u8>, Error>> = {
-        let fut = pin!(r.read::<u8>());
+    let res: Poll<Result<Option<Raw>, Error>> = {
+        let fut = pin!(r.read::<Raw>());
         fut.poll(&mut cx)
         // dropped here: cancellation
     };
@@ -92,7 +103,7 @@ fn step<const READ_VAL: bool, const O: usize>() {
     let spos = r.reader().pos;
     match &res {
         Poll::Ready(Ok(Some(v))) => {
-            assert!(*v == x, "returned value is not the frame's value (torn / duplicated bytes)");
+            assert!(v.len == 2 && v.b0 == p[0] && v.b1 == p[1], "returned payload is not the frame's payload (torn / duplicated bytes)");
             assert!(spos == 6, "source not exactly behind the frame after a value was returned");
             assert!(!post_rv && post_o == 0, "state not reset to a fresh ReadLen after a frame");
         }
@@ -117,24 +128,29 @@ fn step<const READ_VAL: bool, const O: usize>() {
     }
     // a transient error is reported exactly when the source produced one
     if r.reader().saw_err { assert!(matches!(res, Poll::Ready(Err(Error::Io(_))))) }
-    kani::cover!(matches!(res, Poll::Ready(Ok(Some(_)))), "the frame can be completed from this state");
+    kani::cover!(matches!(res, Poll::Ready(Ok(Some(_)))) || (READS < 2 && !(READ_VAL && O >= 1)), "the frame can be completed from this state");
     kani::cover!(matches!(res, Poll::Pending) || (READ_VAL && O == 2), "Pending reachable (except when the frame is already complete)");
     core::mem::forget(r);
 }
 
-macro_rules! step_h { ($($name:ident $rv:expr, $o:expr);*) => { $(
+macro_rules! step_h { ($($name:ident $rv:expr, $o:expr, $reads:expr);*) => { $(
     #[kani::proof]
     #[kani::unwind(8)]
     #[kani::stub(std::vec::Vec::resize, crate::models::vec_resize)]
-    pub fn $name() { step::<$rv, $o>() } )* } }
-step_h!(c15_step_readlen_0 false, 0; c15_step_readlen_1 false, 1; c15_step_readlen_2 false, 2; c15_step_readlen_3 false, 3; c15_step_readlen_4 false, 4;
-        c15_step_readval_0 true, 0; c15_step_readval_1 true, 1; c15_step_readval_2 true, 2);
+    pub fn $name() { step::<$rv, $o, $reads>() } )* } }
+// quick tier: at most ONE completed source read per poll (every Inv state is still a pre-state, so the
+// induction covers schedules of any length; a poll that completes two reads passes through a covered state)
+step_h!(c15_q_step_readlen_0 false, 0, 1; c15_q_step_readlen_1 false, 1, 1; c15_q_step_readlen_2 false, 2, 1; c15_q_step_readlen_3 false, 3, 1;
+        c15_q_step_readlen_4 false, 4, 1; c15_q_step_readval_0 true, 0, 1; c15_q_step_readval_1 true, 1, 1; c15_q_step_readval_2 true, 2, 1);
+// thorough tier: up to TWO completed reads per poll
+step_h!(c15_t_step_readlen_0 false, 0, 2; c15_t_step_readlen_1 false, 1, 2; c15_t_step_readlen_2 false, 2, 2; c15_t_step_readlen_3 false, 3, 2;
+        c15_t_step_readlen_4 false, 4, 2; c15_t_step_readval_0 true, 0, 2; c15_t_step_readval_1 true, 1, 2; c15_t_step_readval_2 true, 2, 2);
 
 /// Base case: a new reader satisfies Inv at a frame boundary.
 #[kani::proof]
 pub fn c15_new_reader_satisfies_inv() {
     let data = [0u8; S];
-    let src = ASrc { data, end: 0, pos: 0, completed: 0, saw_err: false, saw_eof: false, saw_pending: false };
+    let src = ASrc { data, end: 0, pos: 0, max_reads: 1, completed: 0, saw_err: false, saw_eof: false, saw_pending: false };
     let r = AsyncReader::new(src);
     let (rv, lenb, o) = r.__verif_state();
     assert!(inv(rv, &lenb, o, r.__verif_buffer(), &data, 0));
